@@ -380,7 +380,7 @@ func checkC10(c C10Case) Verdict {
 			a, b := msg.Body[i], msg.Body[i+1]
 			ja, _ := json.Marshal(a)
 			jb, _ := json.Marshal(b)
-			if string(ja) == string(jb) || a.K == "text" && b.K == "text" || a.K == "sp" || b.K == "sp" {
+			if string(ja) == string(jb) || a.K == "text" && b.K == "text" || a.K == "sp" || b.K == "sp" || a.K == "lb" || a.K == "rb" || b.K == "lb" || b.K == "rb" {
 				continue
 			}
 			v = cloneCmds(c.Cmds)
@@ -518,6 +518,10 @@ func contentString(body []ref.Cmd, names map[string]string) (string, error) {
 				b.WriteString(s[last:])
 			case "sp":
 				b.WriteString(" ")
+			case "lb":
+				b.WriteString("{")
+			case "rb":
+				b.WriteString("}")
 			case "print":
 				key := "print:" + gen.PrintExpr(c.Expr) + gen.PrintDirectives(c.Directives)
 				ph(names[key])
